@@ -8,6 +8,8 @@ package chainimport
 import (
 	"context"
 	"errors"
+	"fmt"
+	"io"
 	"math/big"
 	"time"
 
@@ -27,6 +29,22 @@ type vpSource struct {
 	headers []Header
 	uri     string
 	onGet   func()
+	fault   *vpReadFault
+}
+
+// vpReadFault: the failAt-th read over both import sources fails once.
+type vpReadFault struct {
+	reads, failAt int
+	happened      bool
+}
+
+func (f *vpReadFault) hit() bool {
+	f.reads++
+	if f.failAt != 0 && f.reads == f.failAt && !f.happened {
+		f.happened = true
+		return true
+	}
+	return false
 }
 
 // vpCtx: a context the harness cancels at a chosen moment.
@@ -57,6 +75,12 @@ func (s *vpSource) Iterator(start, end uint32, batchSize uint32) HeaderIterator 
 func (s *vpSource) GetHeader(index uint32) (Header, error) {
 	if s.onGet != nil {
 		s.onGet()
+	}
+	if s.fault != nil && s.fault.hit() {
+		// what the file source reports when the file turns out shorter than
+		// it was when opened: its read error wraps io.EOF
+		vpReach("import-source-read-fails")
+		return nil, fmt.Errorf("vp: failed to read header at index %d: %w", index, io.EOF)
 	}
 	if int(index) >= len(s.headers) {
 		return nil, errors.New("vp: header index out of bounds")
@@ -337,7 +361,16 @@ func VerifH_C14_import() {
 			vpReach("context-cancelled-before-the-import")
 		}
 	}
+	// one read of the import files may fail (0 = never)
+	rf := &vpReadFault{failAt: vpRange("sourceReadFailsAt", 0, vpParam("readfaults", 0))}
+	blkSrc.fault, fltSrc.fault = rf, rf
 	_, err := imp.Import(ctx)
+	blkSrc.fault, fltSrc.fault = nil, nil
+	if rf.happened && err == nil {
+		// a read error that did not stop the import: allowed as long as success
+		// still means "up to the file's last height" (checked below)
+		vpNote("import-succeeded-despite-a-read-error")
+	}
 	blkSrc.onGet, fltSrc.onGet = nil, nil
 	bs.onMutate, fs.onMutate = nil, nil
 	vpAssert(!aheadAtSomeInstant, "filter-store-never-grows-ahead-of-block-store-at-any-instant")
